@@ -49,6 +49,18 @@ CHECKS = {
         design_ref='DESIGN.md section 9 C18',
         note=BASE_NOTE + 'Python int()/float() outside the ASCII fragment are gray (corresponded where decided, not judged).',
         technique='Lean 4 theorems over an executable model + model/implementation correspondence'),
+    'C19': dict(
+        category='proof',
+        text='Theorems over Model/Using.lean for ALL fields, bodies and value lists: a value that fits is rendered in exactly '
+             'the field width, right-aligned with its sign before the digits; a non-negative value may use the sign position; '
+             'a value that cannot fit is shown unpadded behind a leading %; & and ! fields; literal and escaped characters are '
+             'copied; values are consumed left to right, one per field. Python format() is an external contract (the text '
+             'body). Scanner tied to PrintUsingFormatter exhaustively over the property alphabet to length 4/5, renderer on '
+             'boundary values, compiled statements at six configurations; the property\'s rounding/width rule is checked on '
+             'the real code for plain fields.',
+        design_ref='DESIGN.md section 9 C19',
+        note=BASE_NOTE + "Python format(abs(v), ',.Nf') and '{}'.format are external contracts, not modelled.",
+        technique='Lean 4 theorems over an executable model + model/implementation correspondence'),
 }
 
 PENDING = ('not yet decided by the Lean framework in this commit; design in DESIGN.md section 9, implementation order in '
